@@ -26,7 +26,7 @@ Inductive ostep :=
 | ORollback (k : nat) (cfg' : list key) (post : obs)
   (* NewResolver on the same directory with config [cfg']; [tr] = how the tombstone file read at
      start-up (0 ok, 1 corrupt, 2 unreadable) *)
-| ORestart (cfg' : list key) (tr : N) (post : obs).
+| ORestart (cfg' : list key) (tr : N) (sr : bool) (post : obs).
 
 Inductive case :=
   (* key table (material, flags, tag); initial config; observation after NewResolver; steps *)
@@ -34,7 +34,7 @@ Inductive case :=
 | CCheck (tbl : list (N * N * N)) (cfg : list key) (init : obs) (steps : list ostep)   (* correspondence only *)
 | CSpec (tbl : list (N * N * N)) (cfg : list key) (init : obs) (steps : list ostep)    (* specification only *)
   (* restart window: config, decoded disk, how the tombstone file read, rootKeys right after NewResolver *)
-| CWindow (tbl : list (N * N * N)) (cfg : list key) (d : obs) (tr : N) (live : list key).
+| CWindow (tbl : list (N * N * N)) (cfg : list key) (d : obs) (tr : N) (sr : bool) (live : list key).
 
 (* short constructors for the driver *)
 Definition K (m f : N) : key := mk_key m f.
@@ -97,16 +97,16 @@ Fixpoint check_steps (tag : key -> N) (live cfg : list key) (d : disk)
       | None => false
       | Some (d0, r) =>
           disk_eqb (apply_writes d0 (firstn k (r_writes r))) post &&
-          keys_eqb (restart_live cfg' (disk_of post) TROk) (o_live post) &&
+          keys_eqb (restart_live cfg' (disk_of post) TROk false) (o_live post) &&
           check_steps tag (o_live post) cfg' (disk_of post) None rest
       end
-  | ORestart cfg' tr post :: rest =>
-      disk_eqb d post && keys_eqb (restart_live cfg' d (tread_of_code tr)) (o_live post) &&
+  | ORestart cfg' tr sr post :: rest =>
+      disk_eqb d post && keys_eqb (restart_live cfg' d (tread_of_code tr) sr) (o_live post) &&
       check_steps tag (o_live post) cfg' (disk_of post) None rest
   end.
 
 Definition check_hist (tbl : list (N * N * N)) (cfg : list key) (init : obs) (steps : list ostep) : bool :=
-  keys_eqb (restart_live cfg (disk_of init) TROk) (o_live init) &&
+  keys_eqb (restart_live cfg (disk_of init) TROk false) (o_live init) &&
   check_steps (tag_of tbl) (o_live init) cfg (disk_of init) None steps.
 
 (* -------------------------------------------------------------- spec_case *)
@@ -279,7 +279,7 @@ Fixpoint spec_steps (ss : sstate) (cur : obs) (steps : list ostep) : bool :=
       let streak := if landed then ss_streak ss else ss_streak_before ss in
       let absent := if landed then ss_absent ss else ss_absent_before ss in
       spec_steps (mk_ss cfg' (mats (filter (fun k => negb (is_rev k)) cfg') ++ ss_record ss) streak (ss_prom ss) rev rev [] absent streak absent []) post rest
-  | ORestart cfg' tr post :: rest =>
+  | ORestart cfg' tr sr post :: rest =>
       spec_steps (mk_ss cfg' (mats (filter (fun k => negb (is_rev k)) cfg') ++ ss_record ss) (ss_streak ss) (ss_prom ss) (ss_rev ss) (ss_rev ss) [] (ss_absent ss) (ss_streak ss) (ss_absent ss) []) post rest
   end.
 
@@ -295,7 +295,7 @@ Definition check_case (c : case) : bool :=
   | CHist tbl cfg init steps => check_hist tbl cfg init steps
   | CCheck tbl cfg init steps => check_hist tbl cfg init steps
   | CSpec _ _ _ _ => true
-  | CWindow tbl cfg d tr live => keys_eqb (restart_live cfg (disk_of d) (tread_of_code tr)) live
+  | CWindow tbl cfg d tr sr live => keys_eqb (restart_live cfg (disk_of d) (tread_of_code tr) sr) live
   end.
 
 Definition spec_case (c : case) : bool :=
@@ -305,7 +305,7 @@ Definition spec_case (c : case) : bool :=
   | CSpec tbl cfg init steps => spec_hist (tag_of tbl) cfg init steps
     (* a key recorded as revoked on disk (tombstone or StateRevoked marker) is not a trust anchor
        after a restart, nothing but configured keys is, and an unreadable store fails closed *)
-  | CWindow tbl cfg d tr live =>
+  | CWindow tbl cfg d tr sr live =>
       forallb (fun k => negb (memN (k_mat k) (recorded d)) && key_in k cfg) live &&
-      match tr with 0 => true | _ => is_nil live end
+      match tr with 0 => true | _ => is_nil live end && (negb sr || is_nil live)
   end.
